@@ -121,8 +121,8 @@ def family_strategies():
                                          op=st.integers(0, len(VECTOR_OPS) - 1), bc=bc_strategy(SIDES_VEC)))
     pde_req = st.fixed_dictionaries(dict(
         common, kind=st.sampled_from(["pde_rate", "pde_rhs", "pde_rhs", "pde_rhs_numpy", "pde_solve", "pde_solve_numba"]),
-        eq=st.sampled_from(PDES), p=st.sampled_from([1.0, 2.0, 0.5]), bc=bc_strategy(), bc2=bc_strategy(),
-        reuse=st.booleans()))
+        eq=st.sampled_from(PDES + ["expr-const", "expr-two-ops"]), p=st.sampled_from([1.0, 2.0, 0.5]),
+        bc=bc_strategy(), bc2=bc_strategy(), reuse=st.sampled_from([True, True, True, False])))
     expr_req = st.fixed_dictionaries({"kind": st.just("expr"), "text": st.sampled_from(
         ["a*x + b", "a*x**2 + b", "sin(a*x) + b", "a + b*x"]), "a": st.sampled_from([1.0, 2.0]),
         "b": st.sampled_from([0.0, 1.0]), "route": st.sampled_from(["call", "numpy", "numba"]),
@@ -145,12 +145,28 @@ def family_of(req):
 def near_request(draw, prev, fams):
     """a request that equals an earlier one except in exactly one attribute"""
     new = draw(fams[family_of(prev)])
+    if family_of(prev) == "pde" and draw(st.integers(0, 2)) == 0:
+        # the same equation object applied to a state on another grid with equal shape
+        # (or with another dtype / other data)
+        g0 = GRIDS[prev["grid"]]
+        similar = [i for i, g in enumerate(GRIDS) if g["shape"] == g0["shape"] and axis_names(g) == axis_names(g0)
+                   and g["periodic"] == g0["periodic"]]
+        return dict(prev, grid=draw(st.sampled_from(similar)), reuse=True, seed=new["seed"],
+                    dtype=draw(st.sampled_from([prev["dtype"], new["dtype"]])),
+                    kind=draw(st.sampled_from([prev["kind"], new["kind"]])))
     keys = sorted(k for k in prev if k in new and new[k] != prev[k] and k not in ("seed", "newgrid", "reuse"))
     if not keys:
         return new
     k = draw(st.sampled_from(keys))
     out = dict(prev)
     out[k] = new[k]
+    if k == "grid" and draw(st.integers(0, 3)) > 0:
+        # prefer grids that coincide with the previous one in shape and axis names
+        g0 = GRIDS[prev["grid"]]
+        similar = [i for i, g in enumerate(GRIDS) if i != prev["grid"] and g["shape"] == g0["shape"]
+                   and axis_names(g) == axis_names(g0)]
+        if similar:
+            out["grid"] = draw(st.sampled_from(similar))
     if k == "bc" and prev["bc"].get("k") == "sides" and new["bc"].get("k") == "sides" and draw(st.booleans()):
         # differ in one side only
         s = [list(pair) for pair in prev["bc"]["s"]]
@@ -589,17 +605,17 @@ class FieldHistory(History):
 
 SUBCHECKS = [
     SubCheck("RequestMachine_nojit", history=RequestHistory, mode="nojit",
-             budget={"quick": 1200, "thorough": 20000}, shards={"quick": 8, "thorough": 16},
-             steps={"quick": 10, "thorough": 14},
+             budget={"quick": 800, "thorough": 20000}, shards={"quick": 8, "thorough": 16},
+             steps={"quick": 10, "thorough": 14}, time_limit={"quick": 240, "thorough": 1500},
              rule="non-trivial = two requests of the history share an equal grid (or are both expressions) and "
                   "differ in exactly one other attribute"),
     SubCheck("FieldMachine_nojit", history=FieldHistory, mode="nojit",
-             budget={"quick": 600, "thorough": 10000}, shards={"quick": 4, "thorough": 12},
-             steps={"quick": 12, "thorough": 16},
+             budget={"quick": 400, "thorough": 10000}, shards={"quick": 4, "thorough": 12},
+             steps={"quick": 12, "thorough": 16}, time_limit={"quick": 240, "thorough": 1500},
              rule="non-trivial = an interpolation of a field whose data array was re-linked (collection, dtype "
                   "change) earlier in the history"),
     SubCheck("RequestMachine_jit", history=RequestHistory, mode="jit",
-             budget={"quick": 12, "thorough": 300}, shards={"quick": 4, "thorough": 16},
-             steps={"quick": 3, "thorough": 4}, time_limit={"quick": 100, "thorough": 1500},
+             budget={"quick": 8, "thorough": 300}, shards={"quick": 4, "thorough": 16},
+             steps={"quick": 3, "thorough": 4}, time_limit={"quick": 140, "thorough": 1500},
              rule="as RequestMachine_nojit, with real compilation"),
 ]
